@@ -107,6 +107,7 @@ Record trk := mkTrk {
   k_wakes : nat;                 (* child-waker invocations (wake / wake_by_ref on a slot) *)
   k_stale_wakes : nat;           (* ... of which on slots with no live occupant *)
   k_nblocks : nat;
+  k_freed : list nat;            (* waker blocks released so far *)
   k_polls_total : nat;
   k_items_total : nat;
   k_allocs_after : nat;          (* allocator calls after construction *)
@@ -130,7 +131,7 @@ Record trk := mkTrk {
   <k_type; k_par; k_inits; k_built; k_dropped; k_accepted; k_running; k_final; k_held; k_deque;
    k_yielded; k_produced; k_cdrops; k_fin_undropped; k_odrops; k_refused; k_pulled; k_up_ended; k_ups;
    k_scripts; k_handles; k_occ; k_armed; k_dequeued; k_slot_credit; k_pollno; k_last_waker; k_last_pending; k_twake_since;
-   k_max_held; k_wakes; k_stale_wakes; k_nblocks; k_polls_total; k_items_total; k_allocs_after; k_quiet_run;
+   k_max_held; k_wakes; k_stale_wakes; k_nblocks; k_freed; k_polls_total; k_items_total; k_allocs_after; k_quiet_run;
    k_op_polls; k_op_blk; k_op_finals; k_op_pulled; k_op_twakes; k_op_wakes; k_op_newly_armed; k_op_all_pending;
    k_op_up_last_pend; k_op_up_polled; k_pending_item; k_pending_err>.
 
@@ -142,7 +143,7 @@ Definition trk_init : trk :=
      k_pulled := 0; k_up_ended := false; k_ups := [];
      k_scripts := []; k_handles := []; k_occ := []; k_armed := []; k_dequeued := None; k_slot_credit := []; k_pollno := 0;
      k_last_waker := None; k_last_pending := false; k_twake_since := false;
-     k_max_held := 0; k_wakes := 0; k_stale_wakes := 0; k_nblocks := 0; k_polls_total := 0; k_items_total := 0;
+     k_max_held := 0; k_wakes := 0; k_stale_wakes := 0; k_nblocks := 0; k_freed := []; k_polls_total := 0; k_items_total := 0;
      k_allocs_after := 0; k_quiet_run := 0;
      k_op_polls := 0; k_op_blk := []; k_op_finals := 0; k_op_pulled := 0; k_op_twakes := 0; k_op_wakes := 0;
      k_op_newly_armed := false; k_op_all_pending := true;
@@ -247,6 +248,7 @@ Definition is_final_res (r : res) : bool := match r with RR | RX | RE => true | 
 Definition trk_event (k : trk) (o : op) (e : event) : trk :=
   match e with
   | EBlkAlloc _ _ => k <| k_nblocks ::= S |>
+  | EBlkFree b => k <| k_freed ::= cons b |>
   | ECPoll c b s _ =>
       let deq := match k_dequeued k with Some c' => N.eqb c c' | None => false end in
       let k := k <| k_op_polls ::= S |> <| k_polls_total ::= S |>
@@ -431,8 +433,20 @@ Definition chk_C02_ev (k : trk) (o : op) (e : event) : bool :=
 Definition chk_C02 (t : trace) : bool := mon_trace chk_C02_ev no_end no_fin trk_init t.
 
 (** ** C03 (trace side): no vtable access to a released block, no leak of a block *)
+(** a block is released at most once, never while a live cloned waker still points to it, and
+    (for the types with a single block) never before the collection itself is dropped *)
+Definition handle_points_to (b : nat) (h : option mhandle) : bool :=
+  match h with Some (MC b' _) => Nat.eqb b b' | _ => false end.
+
 Definition chk_C03_ev (k : trk) (o : op) (e : event) : bool :=
-  match e with EVtBad => false | _ => true end.
+  match e with
+  | EVtBad => false
+  | EBlkFree b =>
+      negb (existsb (Nat.eqb b) (k_freed k))
+      && negb (existsb (handle_points_to b) (k_handles k))
+      && (is_unbounded (k_type k) || k_dropped k || negb (k_built k))
+  | _ => true
+  end.
 Definition chk_C03 (t : trace) : bool := mon_trace chk_C03_ev no_end no_fin trk_init t.
 
 (** ** C04: ordered types yield in queue order; join results are in input order *)
